@@ -129,14 +129,18 @@ Example ex_parse_exact :
   spec_cc (list_items 44 ex_value) =
   mkcc 138 5 (-1) (-1) (-1) (-1) [83;101;116;45;67;111;111;107;105;101] [] [102;111;111].
 Proof. vm_compute. reflexivity. Qed.
-Example ex_invalid_hyp : forall it, In it (list_items 44 ex_invalid) -> d_type it = CC_MAX_AGE -> d_num it = None.
-Proof. vm_compute. intros it [<-|[<-|[]]] H; try reflexivity; discriminate. Qed.
+Example ex_invalid_hyp : forall F, strict_numeric F ->
+  forall it, In it (list_items 44 ex_invalid) -> d_type it = F -> d_num it = None.
+Proof. exact ex_invalid_all. Qed.
 Example ex_invalid_items : map d_type (list_items 44 ex_invalid) = [CC_MAX_AGE; CC_S_MAXAGE].
 Proof. vm_compute. reflexivity. Qed.
 (* max-stale=abc *)
-Example ex_max_stale : exists it, find (fun i => d_type i =? CC_MAX_STALE)
-    (list_items 44 [109;97;120;45;115;116;97;108;101;61;97;98;99]) = Some it /\ d_num it = None.
-Proof. eexists. vm_compute. split; reflexivity. Qed.
+Example ex_max_stale :
+  match find (fun i => d_type i =? CC_MAX_STALE) (list_items 44 [109;97;120;45;115;116;97;108;101;61;97;98;99]) with
+  | Some it => match d_num it with None => true | Some _ => false end
+  | None => false
+  end = true.
+Proof. vm_compute. reflexivity. Qed.
 Example ex_plain : forallb qd_char [83;101;116;45;67;111;111;107;105;101;44;32;65;103;101] = true /\
   forallb (fun c => negb (c =? 9)) [83;101;116;45;67;111;111;107;105;101;44;32;65;103;101] = true.
 Proof. vm_compute. split; reflexivity. Qed.
